@@ -640,7 +640,8 @@ def trees(rng, n):
         p = Proj(start=start, G=G, length="+2w")
         grp = p.add_res("team")
         rs = [p.add_res("r%d" % k, parent=grp) for k in range(2)]
-        never = p.add_res("never", hours={})     # no working hours at all: allocated tasks cannot be placed
+        # on leave for the whole horizon: tasks allocated to it cannot be placed
+        never = p.add_res("never", leaves=[(start, start + timedelta(days=400))])
         leaves = []
 
         def mk(parent, depth, prefix):
